@@ -375,4 +375,47 @@ theorem sound_expr : ∀ (m : Matcher), m.WF → Sound m
   | .interM a b, h => sound_intersection (sound_expr a h.1) (sound_expr b h.2)
   | .diffM a b, h => sound_difference (sound_expr a h.1) (sound_expr b h.2)
 
+/-! ### matchers built by the public constructors -/
+
+/-- `GlobsMatcher::builder().prefix_paths(true)…build()` is well-formed as soon as every glob that
+accepts the empty string accepts every single component (`EmptyOk`). -/
+theorem globs_wf (pfx : Bool) (pats : List (Path × Glob)) (h : ∀ p ∈ pats, EmptyOk p.2) :
+    (Matcher.globs pfx pats).WF := by
+  cases pfx with
+  | false => trivial
+  | true =>
+    show (globsBuild true pats).All GlobOptExt
+    simp only [globsBuild, if_true]
+    apply globsNew_All
+    intro p hp
+    simp only [List.mem_map] at hp
+    obtain ⟨q, hq, rfl⟩ := hp
+    exact prefixOf_extClosed (h q hq)
+
+theorem sound_files_new (ps : List Path) : Sound (Matcher.files ps) := sound_files _
+theorem sound_prefix_new (ps : List Path) : Sound (Matcher.prefixes ps) := sound_prefix _
+theorem sound_globs_new (pfx : Bool) (pats : List (Path × Glob)) (h : ∀ p ∈ pats, EmptyOk p.2) :
+    Sound (Matcher.globs pfx pats) := sound_expr _ (globs_wf pfx pats h)
+
+/-! ### non-vacuity -/
+
+/-- a `*/1`-like glob (second component is `1`) is `EmptyOk`; its prefix matcher at `[0]`, minus the
+files `0/2/1`, intersected with everything below `0`, is covered by `sound_expr`. -/
+example : Sound (.diffM (.interM (Matcher.globs true [([0], fun t => t.drop 1 == [1])])
+                                 (Matcher.prefixes [[0]]))
+                        (Matcher.files [[0, 2, 1]])) :=
+  sound_expr _ ⟨⟨globs_wf true _ (by intro p hp; simp at hp; subst hp; intro h; simp at h), trivial⟩, trivial⟩
+
+/-- the example is not trivial: it matches `0/2/1/5` but not `0/2/1` nor `0/2/2` -/
+example : let m : Matcher := .diffM (.interM (Matcher.globs true [([0], fun t => t.drop 1 == [1])])
+                                 (Matcher.prefixes [[0]])) (Matcher.files [[0, 2, 1]])
+    (m.mat [0, 2, 1, 5], m.mat [0, 2, 1], m.mat [0, 2, 2]) = (true, false, false) := by decide
+
+/-- The `ExtClosed` hypothesis cannot be dropped: a prefix-mode pattern set accepting only the
+empty tail claims `AllRecursively` at the root while matching nothing. -/
+example : ¬ Sound (.globsM true ⟨some (fun t => t.isEmpty), .nil⟩) := by
+  intro h
+  have := (h [] 0 []).2 (by simp [Matcher.visit, globsVisit])
+  simp [Matcher.mat, globsMatches, Forest.find, Tree.child] at this
+
 end JjModel.C30
